@@ -1198,9 +1198,9 @@ def run(ctx):
         # quick tier on a tree whose mirrored source was edited: more than quick, but still inside the quick tier's wall time
         return thorough if ctx.tier == 'thorough' else edited if ctx.escalated else quick
 
-    n = budget(250, 2000, 4000)
-    nk = budget(120, 400, 1500)
-    nf = budget(600, 2000, 4000)
+    n = budget(250, 1500, 4000)
+    nk = budget(120, 300, 1500)
+    nf = budget(600, 1500, 4000)
     fcls = ['restraints', 'aniso', 'sfac', 'fvars', 'free-text', 'edits', 'size', 'sfac-explicit', 'layout']
 
     def keyword_case(i):
